@@ -71,6 +71,17 @@ claim("C10", "other",
       "Trusted: the tables of operands/sites constrained by type inference (13 + 2 entries, each with its reason), value-flow engine, abstract interpreter for variant reachability.",
       "type-provenance rule over MIR value-flow, per Operation variant (custom rustc_private lint)")
 
+claim("C14", "other",
+      "Decides the layout clause across the three sibling implementations (TypedValue::get_local_shares_for_each_party, ReplicatedShares::secret_share_for_parties, mpc::utils::share_vector): the 3x3 matrix (party, slot) -> (source, index) is recovered from the MIR; party p holds shares p and p+1 of the secret's sharing in their own slots and a PRNG-only value in the third; the matrices agree (C14.L); in each sharing the first two shares are independent PRNG draws and the third depends on the secret and both of them through a subtraction (C14.S). Reconstruction over all types/values and uniformity are NOT decided.",
+      "DESIGN.md section 3, C14",
+      "Trusted: dependency closure of the value-flow engine (all calls except PRNG draws, len/type queries are taken as value-propagating), positional recovery of vec![..] aggregates.",
+      "positional value-flow recovery on MIR with sibling cross-check (custom rustc_private lint)")
+claim("C15", "other",
+      "Decides the effect clauses: the PRF object has no state besides the key schedule, its output functions only read self and use a PrfSession created in the same call from the counter (C15.P); no path from Prf::output_*, PrfSession::* or the PRNG methods reaches OS randomness/time/environment, and seeded construction does not either (C15.E, call-graph + abstract interpretation with Some(seed)); the evaluator's per-key PRF cache is keyed by the bytes the cached Prf is built from and both cache branches evaluate the node's own (counter, type) (C15.C). Bias, permutation validity and value domains are NOT decided.",
+      "DESIGN.md section 3, C15",
+      "Trusted: resolved call graph of the crate (external crates only by callee name patterns: OsRng, getrandom, SystemTime, thread_rng, ...), value-flow engine.",
+      "effect analysis over the resolved call graph + field-write and provenance rules on MIR (custom rustc_private lint)")
+
 ALL = ["C%02d" % i for i in range(1, 21)]
 
 def main():
